@@ -7,5 +7,6 @@ CONSTANTS
   RecheckAtApply = TRUE
   KeepTimers = FALSE
   CountAllWit = FALSE
+  RetryBlind = FALSE
 POSTCONDITION Done
 CHECK_DEADLOCK FALSE
